@@ -17,8 +17,8 @@ CHECKS = {
     ),
     "C14": dict(
         engine="engine",
-        technique="TLC model checking of MPRun.tla over all cyclic programs + replay on the real engine + TLC trace validation (MPRunAbsTrace.tla)",
-        text="TLC explores MPRun for every program on 3 commands whose reference graph has a cycle (thorough: also 4 commands, longer histories), checking CyclicRejected, StackBounded, NoSpuriousRecursive; the pinned design (no cycle guard, no sweep) is refuted by the negative configs in selftest. Every terminal state is replayed on the real engine and its trace validated: ReturnedOk, StackOverflow, WrongError, Reentered are named clauses.",
+        technique="TLC model checking of MPRun.tla over all cyclic programs + replay on the real engine + TLC trace validation (MPRunAbsTrace.tla); TLC model checking of MPValidate.tla (InitCycles: cycles through every built-in command) + replay + trace validation (MPValidateTrace.tla)",
+        text="TLC explores MPRun for every program on 3 commands whose reference graph has a cycle (thorough: also 4 commands, longer histories), checking CyclicRejected, StackBounded, NoSpuriousRecursive; the pinned design (no cycle guard, no sweep) is refuted by the negative configs in selftest. Every terminal state is replayed on the real engine and its trace validated: ReturnedOk, StackOverflow, WrongError, Reentered are named clauses. Random five-command cyclic programs are replayed and validated the same way, and MPValidate (INIT InitCycles) closes a reference cycle through every result parameter of every built-in command (back edge chosen so that all references are well-typed; self-loops for untyped parameters; zero weights on the back edge): invariant CyclicRejected on the pipeline model, every program run on the real libraries and its trace validated by MPValidateTrace (C14.ReturnedOk / C14.WrongError).",
         design="4/C14, 2.1",
         note=BASE_NOTE + " The interpreter recursion limit is lowered to 400 during replays.",
     ),
@@ -28,10 +28,10 @@ EEMS_NOTE = BASE_NOTE + (" Arithmetic is exact rationals in the model; a float r
                          "commands are driven through execute() with finished producer commands (the full pipeline is C02's subject).")
 CHECKS.update({
     "C03": dict(engine="eems", technique="TLC: MaskRule invariant on EEMSOps.tla over EEMSCases families + TLC validation (EEMSOpsTrace.tla) of every observed result mask; payload variants compared bit-for-bit",
-                text="TLC checks on the rational semantics that a result cell is missing iff an input cell there is missing or the operation is undefined, for every lattice point/short array of every family (all 33 data commands); every case is executed on the real commands with four different payloads beneath the missing cells (including arrays produced by the real CSV reader) and TLC validates each observed mask; results across payload variants must be bit-identical.",
+                text="TLC checks on the rational semantics that a result cell is missing iff an input cell there is missing or the operation is undefined, for every lattice point/short array of every family (all 33 data commands); every case is executed on the real commands with four different payloads beneath the missing cells (including arrays produced by the real CSV reader) and TLC validates each observed mask; results across payload variants must be bit-identical (variants also present complete arrays as plain ndarrays and let the CSV reader declare a missing value next to a data value). The NetCDF reader and writer are run on the NetcdfIO cases that have missing cells and validated by TLC (NetcdfIOTrace).",
                 design="4/C03, 2.7", note=EEMS_NOTE),
     "C04": dict(engine="eems", technique="TLC: FuzzyInRange invariant on EEMSOps.tla + OutOfRange clause of EEMSOpsTrace.tla on every observation; exact range check on raw floats; stretched random parameters",
-                text="TLC checks InRange for the 14 fuzzy-producing commands on lattices that exceed [-1,1] for inputs, weights (negative, zero-sum), thresholds, category and curve values; every case is executed and TLC validates the observation (OutOfRange clause); raw float results are compared exactly with the bounds; a random pass stretches parameters up to 1e6.",
+                text="TLC checks InRange for the 14 fuzzy-producing commands on lattices that exceed [-1,1] for inputs, weights (negative, zero-sum), thresholds, category and curve values; every case is executed and TLC validates the observation (OutOfRange clause); raw float results are compared exactly with the bounds; a random pass stretches parameters up to 1e6; every family is run once more on single-precision data; fuzzy results that lay in [-1, 1] must still do so after any command (incl. CvtFromFuzzy) has consumed them.",
                 design="4/C04, 2.7", note=EEMS_NOTE),
     "C05": dict(engine="eems", technique="TLC: Equivariant invariant (Sem commutes with every cell permutation) + TLC validation of rank-2/rank-3 reshaped and permuted executions against the un-arranged case",
                 text="Every family is executed 1-D and again reshaped to rank-2/rank-3 grids (length-1 axes included) and under common permutations; TLC validates each arrangement's observation against EEMSOps.Sem of the original case and checks Equivariant on the array-level families; only differences between the rearranged run and the 1-D baseline are findings.",
